@@ -177,8 +177,8 @@ func (o c19Obj) copy() c19Obj {
 
 func (o c19Obj) String() string {
 	if o.Resv != nil {
-		return fmt.Sprintf("reservation %s{phase=%q node=%q allocatable=%s once=%v policy=%q}", o.Resv.Name, o.Resv.Status.Phase, o.Resv.Status.NodeName,
-			c19RLStr(o.Resv.Status.Allocatable), ptr.Deref(o.Resv.Spec.AllocateOnce, true), o.Resv.Spec.AllocatePolicy)
+		return fmt.Sprintf("reservation %s{phase=%q node=%q allocatable=%s once=%v policy=%q terminating=%v}", o.Resv.Name, o.Resv.Status.Phase, o.Resv.Status.NodeName,
+			c19RLStr(o.Resv.Status.Allocatable), ptr.Deref(o.Resv.Spec.AllocateOnce, true), o.Resv.Spec.AllocatePolicy, o.Resv.DeletionTimestamp != nil)
 	}
 	return fmt.Sprintf("pod %s{phase=%q node=%q req=%s allocated=%s}", o.Pod.Name, o.Pod.Status.Phase, o.Pod.Spec.NodeName,
 		c19RLStr(o.Pod.Spec.Containers[0].Resources.Requests), o.Pod.Annotations[apiext.AnnotationReservationAllocated])
@@ -503,7 +503,7 @@ func TestVerifC19ReservationReplay(t *testing.T) {
 		dead := false
 		sawMulti, sawDup, sawPodFinished, sawSelfEvent, sawAnyOrder, sawDeadResv, sawOnce, sawRestricted, sawIndexDiff := false, false, false, false, false, false, false, false, false
 		maxAssigned, checks := 0, 0
-		sawDeleted, sawEarly := false, false
+		sawDeleted, sawEarly, sawTerminating, sawTerminatingWithPods := false, false, false, false
 
 		sorted := func(pred func(types.UID, c19Obj) bool) []types.UID {
 			var out []types.UID
@@ -775,6 +775,7 @@ func TestVerifC19ReservationReplay(t *testing.T) {
 			"schedulePod2": schedulePod,
 			"schedulePod3": schedulePod,
 			"schedulePod4": schedulePod,
+			"schedulePod5": schedulePod,
 			"deletePod": func(t *rapid.T) {
 				if dead {
 					return
@@ -817,6 +818,33 @@ func TestVerifC19ReservationReplay(t *testing.T) {
 				delete(assigned, u)
 				sawPodFinished = true
 				hist = append(hist, fmt.Sprintf("finish pod %s (%s): delivered as delete (tombstone=%v), object leaves the informer", u, phase, tomb))
+			},
+			// Somebody deletes a Reservation that carries a finalizer: it keeps phase Available on its node with a
+			// deletionTimestamp while its owner pods keep running. It still owns them (and no new pod is admitted).
+			"markTerminating": func(t *rapid.T) {
+				if dead {
+					return
+				}
+				uids := sorted(func(u types.UID, o c19Obj) bool { return o.Resv != nil && active[u] && o.Resv.DeletionTimestamp == nil })
+				if len(uids) == 0 {
+					t.Skip("no active reservation")
+				}
+				u := rapid.SampledFrom(uids).Draw(t, "uid")
+				old := persisted[u]
+				n := old.copy()
+				ts := metav1.NewTime(time.Unix(1700000000, 0).UTC()) // fixed stamp: nothing reads the wall clock
+				n.Resv.DeletionTimestamp = &ts
+				n.Resv.Finalizers = []string{"example.com/keep-until-owners-drained"}
+				w.rh.OnUpdate(old.Resv.DeepCopy(), n.Resv.DeepCopy())
+				_ = w.indexer.Update(n.Resv.DeepCopy())
+				persisted[u] = n
+				sawTerminating = true
+				for _, r := range assigned {
+					if r == u {
+						sawTerminatingWithPods = true
+					}
+				}
+				hist = append(hist, fmt.Sprintf("delete requested for reservation %s: finalizer keeps it Available with a deletionTimestamp", u))
 			},
 			"endReservation": func(t *rapid.T) { // consumed / expired / deleted: the plugin handler, then the scheduler-level handler drops it
 				if dead {
@@ -883,6 +911,8 @@ func TestVerifC19ReservationReplay(t *testing.T) {
 		c.ClassIf(sawPodFinished, "pod-finished(delivered-as-delete)")
 		c.ClassIf(sawDeleted, "pod-deleted")
 		c.ClassIf(sawEarly, "replay:add-unbound-then-bind-update")
+		c.ClassIf(sawTerminating, "reservation-terminating-but-available")
+		c.ClassIf(sawTerminatingWithPods, "terminating-reservation-with-assigned-pods")
 		c.ClassIf(sawSelfEvent, "live-saw-own-bind-event")
 		c.ClassIf(sawAnyOrder, "pod-event-before-reservation")
 		c.ClassIf(sawDeadResv, "reservation-ended-with-history")
